@@ -736,6 +736,12 @@ def _worker(i):
                        inconclusive=["budget: overall wall budget of the run reached before this instance started"], mismatches=[], samples=[],
                        unknown=0, completions=0, wall_s=0.0, exhaustive=False, outcomes={}, queries=dict(sat=0, unsat=0, unknown=0),
                        solver_s=0.0, model_hits=0, functions={})
+    if _DEADLINE[0] is not None:
+        # an instance never runs past the overall budget of the run (plus a short grace period to finish its current path)
+        remaining = max(_DEADLINE[0] - time.time(), 20.0)
+        opts = dict(inst.get("opts", {}))
+        opts["wall_s"] = min(opts.get("wall_s", 120), remaining)
+        inst = dict(inst, opts=opts)
     try:
         sys.setrecursionlimit(20000)
         r = run_instance(inst)
@@ -777,7 +783,7 @@ def run_property(pid, instances, tier, seed, meta):
         else:
             stale.append(fid)
     results = [None] * len(instances)
-    budget = float(os.environ.get("VERIF_RUN_WALL") or meta.get("run_wall_s", {}).get(tier) or (780 if tier == "quick" else 3000))
+    budget = float(os.environ.get("VERIF_RUN_WALL") or meta.get("run_wall_s", {}).get(tier) or (780 if tier == "quick" else 1800))
     _DEADLINE[0] = t0 + budget
     nproc = min(int(os.environ.get("VERIF_JOBS", "16")), max(1, len(instances)))
     if nproc > 1:
